@@ -136,8 +136,23 @@ def valid_rendering(rng):
         d.year, d.month, d.day, d.hour, d.minute, d.second, d.microsecond)
 
 
+LONG_RUN_CHARS = ["\x00", " ", ".", ",", "-", "/", ":", "a", "Z", "0",
+                  "\u0663", "\t", "\u00e9", "T", "+"]
+
+
 def gen_text(rng):
     r = rng.random()
+    if r > 0.985:
+        # a very long run of one character (NUL, blank, separator, letter,
+        # digit), alone or around a well-formed rendering: the tokenizer must
+        # neither recurse nor go quadratic on it
+        run = rng.choice(LONG_RUN_CHARS) * rng.choice([300, 1100, 1100, 2000])
+        k = rng.random()
+        if k < 0.4:
+            return run
+        if k < 0.7:
+            return valid_rendering(rng) + run
+        return run + valid_rendering(rng)
     if r < 0.12:
         # a well-formed date and time followed by a zone word that is a local
         # abbreviation under some of the process-TZ settings
@@ -207,7 +222,8 @@ def gen_call(rng):
         if rng.random() < 0.2:
             opts[name] = True
     if rng.random() < 0.25:
-        opts["tzinfos"] = rng.choice(["map", "callable", "map_none"])
+        opts["tzinfos"] = rng.choice(["map", "callable", "map_none", "map2",
+                                      "callable2"])
     if rng.random() < 0.5:
         opts["default"] = [rng.choice([1, 1999, 2003, 2024, 9999]),
                            rng.randrange(1, 13), rng.choice([1, 28, 29, 30, 31]),
@@ -220,8 +236,15 @@ def gen_call(rng):
     return ["parse", via, inp, opts]
 
 
-TZ_SETTINGS = [None, "UTC", "EST5EDT", "CET-1CEST", "XYZ-3:30",
-               "EST-10EDT,M10.1.0,M4.1.0/3", "CET-3CEST"]
+# Every daylight-saving setting carries explicit rules: for a TZ string
+# without them glibc borrows the rules of its "posixrules" file, and under
+# that fallback localtime() is not a function of (TZ, instant) -- after a
+# mktime() call the same instant is reported with the other offset (checked
+# with the time module alone, no dateutil involved). Such settings would make
+# any history-independence oracle report libc, not dateutil.
+TZ_SETTINGS = [None, "UTC", "EST5EDT,M3.2.0,M11.1.0",
+               "CET-1CEST,M3.5.0,M10.5.0/3", "XYZ-3:30",
+               "EST-10EDT,M10.1.0,M4.1.0/3", "CET-3CEST,M10.5.0,M3.5.0/3"]
 CLOCKS = [946684799.0, 946684800.0, 2524607999.0, 1709164800.0, 1e9,
           4102444799.0, 0.0, 1735689599.5]
 
@@ -392,6 +415,14 @@ def make_tzinfos(kind):
         return table
     if kind == "map_none":
         return {"BRST": None, "EST": 0}
+    # the same names bound to other values: what one mapping or callable
+    # said must never answer for another
+    table2 = {"BRST": -7200, "EST": "EST5EDT,M3.2.0,M11.1.0", "XYZ": 0,
+              "CET": tz.tzoffset("CET", 3600), "ABCDEF": None}
+    if kind == "map2":
+        return table2
+    if kind == "callable2":
+        return lambda name, offset: table2.get(name, offset)
     return lambda name, offset: table.get(name, offset)
 
 
